@@ -87,6 +87,7 @@ def build(k_e, k_i, k_g):
     fs.add("/srv/sec/index.gmi", FILE, b"SECRET-index")
     fs.add("/srv/root-x/EVIL-x", FILE, b"EVIL-sibling")
     fs.add("/srv/root-x/index.gmi", FILE, b"EVIL-index")
+    fs.add("/srv/SECRET-top", FILE, b"SECRET-content-top")          # a file directly in the root's parent
     return fs
 
 
@@ -99,7 +100,7 @@ NN = pick(NQ, len(NAMES))
 
 
 CONTENT_TOKENS = ("SECRET-content", "SECRET-index", "EVIL-sibling", "EVIL-index")
-NAME_TOKENS = ("SECRET-s", "SECRET-sub", "SECRET-t", "EVIL-x")
+NAME_TOKENS = ("SECRET-s", "SECRET-sub", "SECRET-t", "EVIL-x", "SECRET-top")
 
 
 def _leaks(text, request_path):
@@ -261,6 +262,37 @@ def root_and_single(k_e: int, k_i: int, s1: int, slash: bool, listing: bool, emp
         h = StaticFileHandler(ROOT, enable_directory_listing=listing)
         path = "" if empty else "/" + NAMES[s1] + ("/" if slash else "")
         r = _handle(h, GeminiRequest.from_line("gemini://h" + path))
+        return V(_check_response(r, path))
+    finally:
+        fs.uninstall()
+
+
+# ---- one long-lived handler: an earlier request never changes what a later one may reach ------------
+WARM = ["/", "/d/..", "/a.gmi", "/d/", "/..", "", "/e/..", "/nope", "/d/../", "/../sec"]
+W2 = ["..", "sec", "SECRET-top", "root-x", "e", "index.gmi", "d", "EVIL-x", "SECRET-s", "%2e%2e", "a.gmi", ""]
+NWARM = pick(5, len(WARM))
+NW2 = pick(6, len(W2))
+
+
+def warm_handler(k_e: int, k_i: int, w: int, s1: int, s2: int, nseg: int, slash: bool, listing: bool) -> bool:
+    """
+    pre: 0 <= k_e < NKINDS and 0 <= k_i < NKINDS and 0 <= w < NWARM
+    pre: 0 <= s1 < NW2 and 0 <= s2 < NW2 and 1 <= nseg <= 2
+    pre: (not QUICK) or (k_i == 1 and k_e == 1 and not slash)
+    post: _
+    """
+    # the server builds one handler and serves every connection with it: whatever the handler remembers from the
+    # first request (caches, memoised checks) must not widen what the second one reaches
+    fs = build(k_e, k_i, K_FILE)
+    fs.install()
+    try:
+        h = StaticFileHandler(ROOT, enable_directory_listing=listing)
+        r0 = _handle(h, _request(WARM[w]))
+        if not _check_response(r0, WARM[w]):
+            return V(False)
+        segs = [W2[s1], W2[s2]][:nseg]
+        path = "/" + "/".join(segs) + ("/" if slash else "")
+        r = _handle(h, _request(path))
         return V(_check_response(r, path))
     finally:
         fs.uninstall()
@@ -457,6 +489,11 @@ OBLIGATIONS = [
        functions=FN, stubs=["ModelFS"]),
     Ob("root_and_single", root_and_single, quick=300, thorough=900,
        symbolic="kinds of 2 entries, empty path / one segment, trailing slash, listing flag", functions=FN, stubs=["ModelFS"]),
+    Ob("warm_handler", warm_handler, quick=600, thorough=2400,
+       symbolic="a first request out of 5 (quick) / 10 (root itself, '/d/..', a file, a listing, a refused escape, ...), then a second "
+                "request of 1-2 segments over 6 (quick) / 12 names incl. '..', siblings and a file directly in the root's parent -- both "
+                "served by the same handler object; thorough: also the kinds of 2 tree entries and the trailing slash",
+       functions=FN, stubs=["ModelFS"]),
     Ob("reach", reach, quick=200, thorough=600,
        symbolic="file name index (16 names with space, non-ASCII, '?', '#', '%', ';', nested directory), literal or pct-encoded spelling",
        functions=FN, stubs=["ModelFS"], note="discrete"),
